@@ -5,7 +5,7 @@ dec.c, enc.c, base64.c, zip.c, cred.c) under ASan/UBSan/LSan - toy-primitive bui
 (replies, leak flag, out-of-bounds verdict), real-primitive build judged by the property oracle - with canary requests."""
 import json, struct
 from ..vlib import leanlib, cbuild, judge
-from ..gen import g_dec, g_unpack
+from ..gen import g_dec, g_unpack, g_msg
 from . import _cred_common as cc
 from . import _c08_fd
 
@@ -270,6 +270,9 @@ def run(ctx):
     if g_unpack.generate(ctx):
         leanlib.check_props(ctx, "C08Unpack")
         leanlib.check_props(ctx, "UnpackRef")
+    # m_msg_recv translated: order of checks, length gate before allocation
+    if g_msg.generate(ctx):
+        leanlib.check_props(ctx, "C14Recv")
     leanlib.check_props(ctx, "C08")
     drv = leanlib.driver(ctx)
     htoy = cc.build_toy(ctx)
